@@ -5,7 +5,7 @@ import core
 from core import f2b, b2f
 
 PROP = "C05"
-COUNT = {"quick": 260, "thorough": 5000, "search": 2500}
+COUNT = {"quick": 260, "thorough": 5000, "search": 1200}
 PARALLEL = True
 REL = "cryocat/cryomotl.py"
 # the 20 fields in Motl.motl_columns order (= Lean `Field.all`); wire rows carry all of them
@@ -20,15 +20,27 @@ RULE = ("histories of 1..6 (thorough: up to 30) operations update_coordinates / 
         "unordered subtomo ids); positions and shifts on the dyadic grid 2^-10 with both signs, a share of exact half-integer complete "
         "positions (ties), of off-grid values and of rows with ALL shifts zero at non-integer coordinates (also the history scale(1.5) -> "
         "update of a freshly picked list); Euler angles generic, gimbal (theta 0/180), multiples of 90, negative and >360; in-plane "
-        "rotations of either sense; DataFrame index default / permuted 0..n-1 / offset / sparse-descending, re-imposed by the caller before "
-        "EVERY operation in 60 % of the cases (shift_positions resets it); dimension tables: one triple (list / ndarray / float or int "
-        "DataFrame / text file / IMOD .com file) or rows per tomogram (ndarray / DataFrame / text file; shuffled, extra tomograms, "
-        "duplicate rows with equal or conflicting z). QUANTIFIER of flip_handedness: the statement speaks of a particle only when the "
+        "rotations of either sense; values as typed or printed with 1..3 decimals (off the dyadic grid: 101.3, 57.25, 12.345; angles, shift vectors, "
+        "scale factors such as 1.35, non-integer mirror planes such as 300.5); particles on both sides of scipy's gimbal zone (theta 1e-9 .. 1e-5 "
+        "degrees and 180 -+ 4e-6, 10 % of the off-grid cases, with in-plane / identity rotations that keep them there); "
+        "INTEGER-TYPED COLUMNS: 15 % of the lists are built the way reading a STAR / CSV file builds them (every column whose values are all whole "
+        "numbers is int64) and 9 % hold whole numbers only with chosen column groups (x y z / shifts / angles / the other 11 / all 20) int64, "
+        "met first by every kind of operation; DataFrame index default / permuted 0..n-1 / offset / sparse-descending / every label twice, "
+        "re-imposed by the caller before EVERY operation in 60 % of the cases (shift_positions resets it); dimension tables: one triple (list / "
+        "tuple / 1-D or 1x3 ndarray, each also with python / numpy integers, float or int DataFrame, text file, IMOD .com file) or rows per "
+        "tomogram (nested list / nested tuple / ndarray / DataFrame / text file, a single row also flat; shuffled, extra tomograms, duplicate rows "
+        "with equal or conflicting z); 3 % are tables of a shape dimensions_load documents it refuses (1x2, 2x3, Nx5 ...): the call must raise "
+        "ValueError (judged by exception type, never by the message) and the Lean shape dispatch loadDims must refuse too. The RAW table goes to "
+        "the driver (the model does the 1x3 / Nx4 dispatch itself) and ioutils.dimensions_load is also called directly on the argument and "
+        "compared with loadDims. QUANTIFIER of flip_handedness: the statement speaks of a particle only when the "
         "dimensions cover its tomogram (a triple, or a table with at least one row for it whose rows agree); a call without dimensions, a "
         "table lacking the particle's tomogram or giving it two z sizes is outside the quantifier: there the real code is compared with "
         "the model of the code only (kind corr), never with the statement (no spec finding, Lean specOp = none). "
         "Keywords: every option is omitted (library default) / passed by keyword / positionally in shares of ~30 %. "
-        "Cross-call state: 30 % of the cases re-use one caller-owned argument object (shift vector, Rotation, dimension list / ndarray / "
+        "Histories with flips: 9 % of the single-list cases are a scale-free history with 1..3 flips (same dimensions) run on the real code TWICE, as "
+        "given and as its normal form (python mirror of Lean pushFlips: flips removed, later operations mirrored, one flip appended iff their number "
+        "is odd): the final poses must agree (spec, composition-history-flip-parity; the law is Lean's spec_history_flip_parity) and Lean's specRun "
+        "of both must agree (corr). Cross-call state: 30 % of the cases re-use one caller-owned argument object (shift vector, Rotation, dimension list / ndarray / "
         "DataFrame / file path) for two calls, in 40 % of those legitimately rewritten by the caller in between; 15 % run TWO lists in one "
         "process with interleaved operations and shared arguments; every argument is compared before/after the call (DataFrame: values "
         "and shape, not the column labels dimensions_load assigns), the list not operated on must stay bit-identical, and with "
@@ -48,10 +60,18 @@ ASSUMPTIONS = [
     "numpy/pandas float64 +,-,* are IEEE-754 binary64 like Lean Float (update/scale/flip steps are compared bit for bit)",
     "decimal.Decimal(float).to_integral_value(ROUND_HALF_UP) rounds the exact binary value half away from zero = Lean roundHalfUp on the exact rational (compared on every update step, incl. ties)",
     "libm cos/sin/atan2/acos used by the Lean driver's Float services agree with numpy within 1e-12 (inside the 1e-9 tolerance)",
-    "flip_handedness: calls whose dimensions do not cover a particle's tomogram (none given / no row / conflicting rows) are outside the property's quantifier",
+    "flip_handedness: calls whose dimensions do not cover a particle's tomogram (none given / no row / conflicting rows) are outside the property's quantifier; "
+    "so is a table of undocumented shape (documented refusal, ValueError)",
+    "scipy as_euler inside its gimbal zone (theta within 1e-7 rad of 0 or pi) returns a triple that reproduces the matrix only up to 2 sin(theta) <= 2e-7: "
+    "orientation comparisons that involve such a product allow 3 sin(theta) (probed each run on both sides of the zone); outside the zone 1e-9",
+    "integer-typed columns hold values below 2^53 (float(v) exact); the model is run on the float values of the cells",
 ]
 TRUSTED = ["harness elementary-rotation oracle rot_zxz() in props/c05.py (3x3 products with math.cos/math.sin)",
            "Drv/C05.lean Float services (cos/sin in degrees, zxz Euler extraction, exact Float->Rat decoding)"]
+# H4 tolerances: matrices are compared entry-wise. 1e-9 covers the round-off of scipy's quaternion <-> Euler conversions of well-conditioned
+# orientations (measured < 1e-14, see max_dev_R) with a wide margin and is far below any defect of the statement (a wrong sign / order / axis
+# changes entries by O(1), a wrong unit by > 1e-3); next to gimbal lock the conditioned allowance `_gimbal_allow` is ADDED. Positions: relative
+# 1e-9 of the magnitude (coordinates < 1e4 -> 1e-5 voxel absolute at worst); exact (bit-for-bit) wherever no trigonometry is involved.
 TOL = 1e-9
 
 
@@ -70,19 +90,168 @@ DOC = dict(
     angle_cols=[["phi", "theta", "psi"]] * 5,
     side=True,
     shift_targets=[["shift_x", 0], ["shift_y", 1], ["shift_z", 2]],
-    flip=[1, 1, 2, 2],
+    flip=[1, 1, 2, 2, 1],
     signatures=[["Motl.get_coordinates", "tomo_number", "None"], ["Motl.get_angles", "tomo_number", "None"],
                 ["Motl.get_rotations", "tomo_number", "None"], ["Motl.update_coordinates", "", ""],
                 ["Motl.scale_coordinates", "scaling_factor", ""], ["Motl.shift_positions", "shift", ""],
                 ["Motl.shift_positions", "inplace", "True"], ["Motl.apply_rotation", "rotation", ""],
                 ["Motl.flip_handedness", "tomo_dimensions", "None"], ["dimensions_load", "input_dims", ""],
-                ["dimensions_load", "tomo_idx", "None"]],
+                ["dimensions_load", "tomo_idx", "None"], ["imod_com_read", "filename", ""]],
 )
 BODIES = [("getCoordinatesBody", REL, "Motl.get_coordinates"), ("getAnglesBody", REL, "Motl.get_angles"),
           ("getRotationsBody", REL, "Motl.get_rotations"), ("updateBody", REL, "Motl.update_coordinates"),
           ("scaleBody", REL, "Motl.scale_coordinates"), ("shiftBody", REL, "Motl.shift_positions"),
           ("rotateBody", REL, "Motl.apply_rotation"), ("flipBody", REL, "Motl.flip_handedness"),
-          ("dimensionsLoadBody", IOREL, "dimensions_load")]
+          ("dimensionsLoadBody", IOREL, "dimensions_load"), ("imodComReadBody", IOREL, "imod_com_read")]
+
+
+# DOC_BODIES_BEGIN
+# the documented normalised bodies (the same literals as the `…_body_documented` theorems of Props/C05.lean): kept here so that
+# a differing body is reported first-hand (entry, documented / found text, original source line) by the translator
+DOC_BODIES = {
+    'getCoordinatesBody': [
+        'def get_coordinates(self, v0=None):',
+        '    if v0 is None:',
+        "        v1 = self.df.loc[:, ['x', 'y', 'z']].values + self.df.loc[:, ['shift_x', 'shift_y', 'shift_z']].values",
+        '    else:',
+        "        v1 = self.df.loc[self.df.loc[:, 'tomo_id'] == v0, ['x', 'y', 'z']].values + self.df.loc[self.df.loc[:, 'tomo_id'] == v0, ['shift_x', 'shift_y', 'shift_z']].values",
+        '    return v1',
+    ],
+    'getAnglesBody': [
+        'def get_angles(self, v0=None):',
+        '    if v0 is None:',
+        "        v1 = self.df.loc[:, ['phi', 'theta', 'psi']].values",
+        '    else:',
+        "        v1 = self.df.loc[self.df.loc[:, 'tomo_id'] == v0, ['phi', 'theta', 'psi']].values",
+        '    return np.atleast_2d(v1)',
+    ],
+    'getRotationsBody': [
+        'def get_rotations(self, v0=None):',
+        '    v1 = self.get_angles(v0)',
+        '    if v1.shape[0] == 0:',
+        '        return []',
+        "    v2 = rot.from_euler('zxz', v1, degrees=True)",
+        '    return v2',
+    ],
+    'updateBody': [
+        'def update_coordinates(self):',
+        '    def v0(v1):',
+        '        v2 = v1.copy()',
+        "        v3 = v1['x'] + v1['shift_x']",
+        "        v4 = v1['y'] + v1['shift_y']",
+        "        v5 = v1['z'] + v1['shift_z']",
+        "        v2['x'] = float(decimal.Decimal(float(v3)).to_integral_value(rounding=decimal.ROUND_HALF_UP))",
+        "        v2['y'] = float(decimal.Decimal(float(v4)).to_integral_value(rounding=decimal.ROUND_HALF_UP))",
+        "        v2['z'] = float(decimal.Decimal(float(v5)).to_integral_value(rounding=decimal.ROUND_HALF_UP))",
+        "        v2['shift_x'] = v3 - v2['x']",
+        "        v2['shift_y'] = v4 - v2['y']",
+        "        v2['shift_z'] = v5 - v2['z']",
+        '        return v2',
+        '    self.df = self.df.apply(v0, axis=1)',
+        "    warnings.warn('<message>')",
+    ],
+    'scaleBody': [
+        'def scale_coordinates(self, v0):',
+        "    for v1 in ('x', 'y', 'z'):",
+        '        self.df[v1] = self.df[v1] * v0',
+        "        v2 = 'shift_' + v1",
+        '        self.df[v2] = self.df[v2] * v0',
+    ],
+    'shiftBody': [
+        'def shift_positions(self, v0, v1=True):',
+        '    def v2(v3):',
+        '        v3 = v3.astype(float)',
+        '        v4 = np.array(v0)',
+        "        v5 = np.array([[v3['phi'], v3['theta'], v3['psi']]])",
+        "        v6 = rot.from_euler(seq='zxz', angles=v5, degrees=True)",
+        '        v7 = v6.apply(v4)',
+        "        v3['shift_x'] = v3['shift_x'] + v7[0][0]",
+        "        v3['shift_y'] = v3['shift_y'] + v7[0][1]",
+        "        v3['shift_z'] = v3['shift_z'] + v7[0][2]",
+        '        return v3',
+        '    if v1:',
+        '        self.df = self.df.apply(v2, axis=1).reset_index(drop=True)',
+        '    else:',
+        '        v8 = copy.deepcopy(self)',
+        '        v8.df = v8.df.apply(v2, axis=1).reset_index(drop=True)',
+        '        return v8',
+    ],
+    'rotateBody': [
+        'def apply_rotation(self, v0):',
+        '    if not isinstance(v0, rot):',
+        "        raise ValueError('<message>')",
+        "    v1 = self.df.loc[:, ['phi', 'theta', 'psi']].to_numpy()",
+        "    v2 = rot.from_euler('zxz', v1, degrees=True)",
+        '    v3 = v2 * v0',
+        "    v1 = v3.as_euler('zxz', degrees=True)",
+        "    self.df[['phi', 'theta', 'psi']] = v1",
+    ],
+    'flipBody': [
+        'def flip_handedness(self, v0=None):',
+        "    self.df.loc[:, 'theta'] = -self.df.loc[:, 'theta']",
+        '    if v0 is not None:',
+        '        v1 = ioutils.dimensions_load(v0)',
+        "        self.df['z'] = self.df['z'].astype(float)",
+        '        if v1.shape == (1, 3):',
+        "            v2 = float(v1['z'].iloc[0]) + 1",
+        "            self.df.loc[:, 'z'] = v2 - self.df.loc[:, 'z']",
+        "            self.df.loc[:, 'shift_z'] = -self.df.loc[:, 'shift_z']",
+        '        else:',
+        "            v3 = v1['tomo_id'].unique()",
+        '            for v4 in v3:',
+        "                v2 = float(v1.loc[v1['tomo_id'] == v4, 'z'].iloc[0]) + 1",
+        "                self.df.loc[self.df['tomo_id'] == v4, 'z'] = v2 - self.df.loc[self.df['tomo_id'] == v4, 'z']",
+        "                self.df.loc[self.df['tomo_id'] == v4, 'shift_z'] = -self.df.loc[self.df['tomo_id'] == v4, 'shift_z']",
+    ],
+    'dimensionsLoadBody': [
+        'def dimensions_load(v0, v1=None):',
+        '    if isinstance(v0, pd.DataFrame):',
+        '        v2 = v0',
+        '    elif isinstance(v0, str):',
+        "        if v0.endswith('.com'):",
+        '            v3 = imod_com_read(v0)',
+        '            v2 = np.zeros((1, 3))',
+        "            v2[0, 0:2] = v3['FULLIMAGE']",
+        "            v2[0, 2] = v3['THICKNESS'][0]",
+        '            v2 = pd.DataFrame(v2)',
+        '        elif os.path.isfile(v0):',
+        "            v2 = pd.read_csv(v0, sep='\\\\s+', header=None, dtype=float)",
+        '        else:',
+        "            raise ValueError('<message>')",
+        '    else:',
+        '        v0 = np.asarray(v0)',
+        '        if v0.ndim == 1:',
+        '            v0 = np.reshape(v0, (1, v0.shape[0]))',
+        '        v2 = pd.DataFrame(v0)',
+        '    if v2.shape == (1, 3):',
+        "        v2.columns = ['x', 'y', 'z']",
+        '    elif v2.shape[1] == 4:',
+        "        v2.columns = ['tomo_id', 'x', 'y', 'z']",
+        '    else:',
+        "        raise ValueError('<message>')",
+        '    if v1 is not None:',
+        '        v4 = tlt_load(v1).astype(int)',
+        "        if 'tomo_id' not in v2.columns:",
+        "            v5 = np.repeat(v2[['x', 'y', 'z']].values, len(v4), axis=0)",
+        "            v2 = pd.DataFrame(v5, columns=['x', 'y', 'z'])",
+        "            v2['tomo_id'] = v4",
+        '    return v2',
+    ],
+    'imodComReadBody': [
+        'def imod_com_read(v0):',
+        '    v1 = {}',
+        "    with open(v0, 'r') as v2:",
+        '        for v3 in v2:',
+        "            if v3.startswith('#') or v3.startswith('$'):",
+        '                continue',
+        '            v4 = v3.split()',
+        '            v5 = v4[0]',
+        '            v6 = [int(v7) if v7.isdigit() else float(v7) if is_float(v7) else v7 for v7 in v4[1:]]',
+        '            v1[v5] = v6',
+        '    return v1',
+    ],
+}
+# DOC_BODIES_END
 
 
 def _u(n):
@@ -104,60 +273,186 @@ def _inner(fn, what):
     return inner[0]
 
 
-class _Alpha(ast.NodeTransformer):
-    def __init__(self, names):
-        self.names = names
+MSG = "<message>"  # placeholder for the text of exception / warning / log messages (H1: rewording a message is a harmless edit)
+_LOGGERS = ("warnings.warn", "print", "logging.", "logger.", "log.")
+
+
+def _binding_nodes(fn):
+    """every BINDING occurrence of a local name inside `fn` (parameters except self, assigned names, loop / with / except /
+    comprehension targets, inner function names, local imports) in SOURCE order (line, column)"""
+    occ = []
+    for n in ast.walk(fn):
+        if isinstance(n, (ast.FunctionDef, ast.AsyncFunctionDef)) and n is not fn:
+            occ.append((n.lineno, n.col_offset, 0, n))
+        elif isinstance(n, ast.arg) and n.arg != "self":
+            occ.append((n.lineno, n.col_offset, 1, n))
+        elif isinstance(n, ast.Name) and isinstance(n.ctx, ast.Store):
+            occ.append((n.lineno, n.col_offset, 1, n))
+        elif isinstance(n, ast.ExceptHandler) and n.name:
+            occ.append((n.lineno, n.col_offset, 1, n))
+        elif isinstance(n, ast.alias):
+            occ.append((getattr(n, "lineno", 0), getattr(n, "col_offset", 0), 1, n))
+    occ.sort(key=lambda t: t[:3])
+    return [t[3] for t in occ]
+
+
+def _bound_name(n):
+    if isinstance(n, (ast.FunctionDef, ast.AsyncFunctionDef, ast.ExceptHandler)):
+        return n.name
+    if isinstance(n, ast.arg):
+        return n.arg
+    if isinstance(n, ast.alias):
+        return (n.asname or n.name).split(".")[0]
+    return n.id
+
+
+class _Canon(ast.NodeTransformer):
+    """annotation-free, message-free, alpha-renamed form of a function"""
+
+    def __init__(self, names, discards):
+        self.names, self.discards = names, discards
 
     def visit_Name(self, n):
-        return ast.copy_location(ast.Name(id=self.names.get(n.id, n.id), ctx=n.ctx), n)
+        new = self.discards.get(id(n)) or self.names.get(n.id, n.id)
+        return ast.copy_location(ast.Name(id=new, ctx=n.ctx), n)
 
     def visit_arg(self, a):
-        a.arg = self.names.get(a.arg, a.arg)
+        a.arg = self.discards.get(id(a)) or self.names.get(a.arg, a.arg)
+        a.annotation = None  # H1: a type hint is not behaviour
         return a
 
     def visit_FunctionDef(self, f):
-        f.name = self.names.get(f.name, f.name)
+        f.name = self.discards.get(id(f)) or self.names.get(f.name, f.name)
+        f.returns = None
+        f.decorator_list = []  # decorators are the framework's binding obligation (harness/decorators.json), not part of the body
         self.generic_visit(f)
         return f
 
+    def visit_ExceptHandler(self, h):
+        if h.name:
+            h.name = self.discards.get(id(h)) or self.names.get(h.name, h.name)
+        self.generic_visit(h)
+        return h
 
-def alpha_lines(fn):
-    """normalised dump of a whole function: docstrings dropped, every LOCAL name (parameters except self, assigned names,
-    loop / with targets, inner functions) replaced by v0, v1, ... in order of first binding (structure only, so a harmless
-    rename of a local variable does not change the dump), then unparsed statement by statement, one line per list entry"""
+    def visit_AnnAssign(self, n):  # `x: T = v` is `x = v`; a bare declaration `x: T` is nothing
+        self.generic_visit(n)
+        if n.value is None:
+            return ast.copy_location(ast.Pass(), n)
+        return ast.copy_location(ast.Assign(targets=[n.target], value=n.value), n)
+
+    @staticmethod
+    def _blank(call):
+        """the message arguments of an exception constructor / warning / log call: text literals and f-strings -> placeholder"""
+        if isinstance(call, ast.Call):
+            call.args = [ast.copy_location(ast.Constant(MSG), a) if (isinstance(a, ast.JoinedStr) or (isinstance(a, ast.Constant) and isinstance(a.value, str))
+                         or (isinstance(a, ast.BinOp) and any(isinstance(x, (ast.JoinedStr,)) or (isinstance(x, ast.Constant) and isinstance(x.value, str)) for x in ast.walk(a)))) else a
+                         for a in call.args]
+            for k in call.keywords:
+                if k.arg in ("message", "msg") and not isinstance(k.value, ast.Name):
+                    k.value = ast.copy_location(ast.Constant(MSG), k.value)
+
+    def visit_Raise(self, n):
+        self.generic_visit(n)
+        self._blank(n.exc)
+        return n
+
+    def visit_Expr(self, n):
+        self.generic_visit(n)
+        if isinstance(n.value, ast.Call):
+            f = ast.unparse(n.value.func)
+            if any(f == l or (l.endswith(".") and f.startswith(l)) for l in _LOGGERS):
+                self._blank(n.value)
+        return n
+
+    def visit_UnaryOp(self, n):  # `not (a is None)` is `a is not None` (the same for `in`); identity / membership tests only
+        self.generic_visit(n)
+        flip = {ast.Is: ast.IsNot, ast.IsNot: ast.Is, ast.In: ast.NotIn, ast.NotIn: ast.In}
+        if isinstance(n.op, ast.Not) and isinstance(n.operand, ast.Compare) and len(n.operand.ops) == 1 and type(n.operand.ops[0]) in flip:
+            c = n.operand
+            return ast.copy_location(ast.Compare(left=c.left, ops=[flip[type(c.ops[0])]()], comparators=c.comparators), n)
+        return n
+
+
+class _NoAnn(ast.NodeTransformer):
+    """H1: the same function without type annotations (`x: T = v` -> `x = v`, bare `x: T` dropped, argument / return hints dropped);
+    names and everything else untouched. Every semantic anchor reads the source through this, so a type hint never moves an anchor."""
+
+    def visit_arg(self, a):
+        a.annotation = None
+        return a
+
+    def visit_FunctionDef(self, f):
+        f.returns = None
+        self.generic_visit(f)
+        return f
+
+    def visit_AnnAssign(self, n):
+        self.generic_visit(n)
+        if n.value is None:
+            return ast.copy_location(ast.Pass(), n)
+        return ast.copy_location(ast.Assign(targets=[n.target], value=n.value), n)
+
+
+def _no_ann(fn):
+    out = _NoAnn().visit(copy.deepcopy(fn))
+    ast.fix_missing_locations(out)
+    return out
+
+
+def alpha_norm(fn):
+    """canonical form of a whole function (H1, H2, G5): docstrings dropped; decorators, argument / return / variable annotations
+    dropped; texts of exception, warning and log messages replaced by a placeholder; `not (a is None)` written `a is not None`;
+    every LOCAL name (parameters except self, assigned names, loop / with / except targets, inner functions, local imports)
+    replaced by v0, v1, ... in the order of its first BINDING occurrence in the source, every binding of the discard name `_`
+    getting a number of its own -- so renaming a local, adding a type hint, rewording a message do not change it, while any
+    added / removed / reordered / altered statement does. Returns the normalised ast (line numbers kept)."""
     fn = copy.deepcopy(fn)
-    order = []
-
-    def note(x):
-        if x != "self" and x not in order:
-            order.append(x)
-
     for n in ast.walk(fn):
         if isinstance(n, (ast.FunctionDef, ast.AsyncFunctionDef)):
             if n.body and isinstance(n.body[0], ast.Expr) and isinstance(n.body[0].value, ast.Constant) and isinstance(n.body[0].value.value, str):
                 n.body = n.body[1:] or [ast.Pass()]
-            if n is not fn:
-                note(n.name)
-    for n in ast.walk(fn):
-        if isinstance(n, ast.arg):
-            note(n.arg)
-        elif isinstance(n, ast.Name) and isinstance(n.ctx, ast.Store):
-            note(n.id)
-    names = {x: f"v{i}" for i, x in enumerate(order)}
+    names, discards, k = {}, {}, 0
+    for n in _binding_nodes(fn):
+        x = _bound_name(n)
+        if x == "_":
+            discards[id(n)] = f"v{k}"; k += 1
+        elif x not in names:
+            names[x] = f"v{k}"; k += 1
     keep = fn.name
-    fn = _Alpha(names).visit(fn)
+    fn = _Canon(names, discards).visit(fn)
     fn.name = keep
-    fn.decorator_list = []
     ast.fix_missing_locations(fn)
-    return [l.rstrip() for l in ast.unparse(fn).splitlines() if l.strip()]
+    return fn
+
+
+def alpha_lines(fn):
+    """`alpha_norm(fn)` unparsed, one list entry per line"""
+    return [l.rstrip() for l in ast.unparse(alpha_norm(fn)).splitlines() if l.strip()]
+
+
+def _body_diff(src, rel, q, found, doc):
+    """first-hand diagnostic for a whole-body anchor: which entry differs, the documented and the found normalised text, and the
+    ORIGINAL source line(s) the found entry comes from (with the original identifiers)"""
+    k = next((i for i, (x, y) in enumerate(zip(found, doc)) if x != y), min(len(found), len(doc)))
+    f_txt = found[k] if k < len(found) else "<end of body>"
+    d_txt = doc[k] if k < len(doc) else "<end of body>"
+    orig = ""
+    if k < len(found):
+        norm = alpha_norm(src.find(rel, q))
+        lines = src.text(rel).splitlines()
+        hits = sorted({s.lineno for s in ast.walk(norm) if isinstance(s, ast.stmt) and ast.unparse(s).splitlines()[0].strip() == f_txt.strip()})
+        if hits:
+            orig = "; original source " + " / ".join(f"line {h}: `{lines[h - 1].strip()[:140]}`" for h in hits[:2])
+    return f"{q}: normalised body differs from the documented one at entry {k}: documented {d_txt!r}, found {f_txt!r}{orig}"
 
 
 def translate(src):
     A = src.anchor
+    find = lambda rel, q: _no_ann(src.find(rel, q))  # every lookup is recorded by src.find (binding obligations)
 
     # --- get_coordinates: values of [x,y,z] + values of [shift_x,shift_y,shift_z], both branches
     def coords():
-        fn = src.find(REL, "Motl.get_coordinates")
+        fn = find(REL, "Motl.get_coordinates")
         found = []
         for n in ast.walk(fn):
             if isinstance(n, ast.Assign) and isinstance(n.value, ast.BinOp):
@@ -173,7 +468,7 @@ def translate(src):
 
     # --- update_coordinates
     def update():
-        outer = src.find(REL, "Motl.update_coordinates")
+        outer = find(REL, "Motl.update_coordinates")
         fn = _inner(outer, "update_coordinates")
         row = fn.args.args[0].arg
         shifted, rounded, resid = {}, [], []
@@ -186,7 +481,8 @@ def translate(src):
                 if m:
                     shifted[t.id] = (m.group(1), m.group(2))
             elif isinstance(t, ast.Subscript) and isinstance(v, ast.Call):
-                m = re.fullmatch(r'float\(decimal\.Decimal\((\w+)\)\.to_integral_value\(rounding=decimal\.(\w+)\)\)', _u(v))
+                # `Decimal(float(v))`: the sum of two integer-typed cells is a numpy integer, which Decimal refuses; float(v) is exact below 2^53
+                m = re.fullmatch(r'float\(decimal\.Decimal\(float\((\w+)\)\)\.to_integral_value\(rounding=decimal\.(\w+)\)\)', _u(v))
                 if m and m.group(1) in shifted:
                     col = ast.literal_eval(t.slice)
                     rounded.append([col, shifted[m.group(1)][0], shifted[m.group(1)][1], m.group(2)])
@@ -195,7 +491,8 @@ def translate(src):
                 if m and m.group(1) in shifted:
                     resid.append([ast.literal_eval(t.slice), shifted[m.group(1)][0], shifted[m.group(1)][1], m.group(3), m.group(2) == _u(t.value)])
         if len(rounded) != 3 or len(resid) != 3:
-            raise core.AnchorMissing("update_coordinates.round_and_recenter: expected 3 roundings and 3 residual shifts")
+            raise core.AnchorMissing(f"update_coordinates.{fn.name}: expected 3 roundings `float(decimal.Decimal(float(<x+shift_x>)).to_integral_value(rounding=...))` and 3 residual shifts, found {len(rounded)} / {len(resid)}: "
+                                     + " ; ".join(ast.unparse(st)[:90] for st in fn.body if isinstance(st, ast.Assign) and "Decimal" in ast.unparse(st)))
         new_rows = [st.targets[0].id for st in fn.body if isinstance(st, ast.Assign) and _u(st.value) == f"{row}.copy()"]
         if not isinstance(fn.body[-1], ast.Return) or len(new_rows) != 1 or _u(fn.body[-1].value) != new_rows[0]:
             raise core.AnchorMissing("round_and_recenter does not return the new row")
@@ -207,7 +504,7 @@ def translate(src):
 
     # --- scale_coordinates
     def scale():
-        fn = src.find(REL, "Motl.scale_coordinates")
+        fn = find(REL, "Motl.scale_coordinates")
         loop = next((s for s in fn.body if isinstance(s, ast.For)), None)
         if loop is None:
             raise core.AnchorMissing("scale_coordinates: no loop over the coordinates")
@@ -227,7 +524,7 @@ def translate(src):
     def euler_calls():
         out = []
         for q in ("Motl.apply_rotation", "Motl.shift_positions", "Motl.get_rotations"):
-            fn = src.find(REL, q)
+            fn = find(REL, q)
             for n in ast.walk(fn):
                 if isinstance(n, ast.Call) and isinstance(n.func, ast.Attribute) and n.func.attr in ("from_euler", "as_euler"):
                     kw = {k.arg: k.value for k in n.keywords}
@@ -244,19 +541,29 @@ def translate(src):
     # --- angle column order used to build / store Euler triples
     def angle_cols():
         out = []
-        fn = src.find(REL, "Motl.apply_rotation")
-        for n in ast.walk(fn):
-            if isinstance(n, ast.Subscript) and _u(n.value) == "self.df.loc":
+        fn = find(REL, "Motl.apply_rotation")
+        for n in ast.walk(fn):  # read: self.df.loc[:, [cols]]; write: the three columns assigned AS A WHOLE, self.df[[cols]] = <as_euler result>
+            if isinstance(n, ast.Subscript) and _u(n.value) == "self.df.loc" and isinstance(n.ctx, ast.Load):
                 out.append(_str_list(n.slice.elts[1]))
-        if len(out) != 2:
-            raise core.AnchorMissing("apply_rotation: expected one read and one write of the angle columns")
-        fn = src.find(REL, "Motl.get_angles")
+        writes = [st for st in ast.walk(fn) if isinstance(st, ast.Assign) and any(isinstance(t, ast.Subscript) and _u(t.value).startswith("self.df") for t in st.targets)]
+        if len(out) != 1 or len(writes) != 1 or len(writes[0].targets) != 1:
+            raise core.AnchorMissing(f"apply_rotation: expected one read `self.df.loc[:, [phi, theta, psi]]` and one write of the angle columns, found {len(out)} / {[_u(w)[:60] for w in writes]}")
+        w = writes[0].targets[0]
+        if _u(w.value) != "self.df" or not isinstance(w.slice, ast.List):
+            raise core.AnchorMissing("apply_rotation: the angle columns are not assigned as a whole (`self.df[[phi, theta, psi]] = angles`; a `.loc[:, cols] = floats` "
+                                     "assignment raises under pandas 3 when the columns are integer-typed): " + _u(writes[0])[:100])
+        src_names = {x.id for x in ast.walk(writes[0].value) if isinstance(x, ast.Name)}
+        as_e = [st.targets[0].id for st in ast.walk(fn) if isinstance(st, ast.Assign) and isinstance(st.targets[0], ast.Name) and isinstance(st.value, ast.Call) and _u(st.value.func).endswith(".as_euler")]
+        if not as_e or as_e[-1] not in src_names:
+            raise core.AnchorMissing("apply_rotation: what is stored is not the as_euler result: " + _u(writes[0])[:100])
+        out.append(_str_list(w.slice))
+        fn = find(REL, "Motl.get_angles")
         g = [_str_list(n.slice.elts[1]) for n in ast.walk(fn) if isinstance(n, ast.Subscript) and _u(n.value) == "self.df.loc"
              and isinstance(n.slice, ast.Tuple) and isinstance(n.slice.elts[1], ast.List)]
         if len(g) != 2:
             raise core.AnchorMissing("get_angles: expected two branches selecting the angle columns")
         out += g
-        fn = _inner(src.find(REL, "Motl.shift_positions"), "shift_positions")
+        fn = _inner(find(REL, "Motl.shift_positions"), "shift_positions")
         row = fn.args.args[0].arg
         for n in ast.walk(fn):
             if isinstance(n, ast.Assign):
@@ -274,7 +581,7 @@ def translate(src):
 
     # --- apply_rotation: which side the user's rotation multiplies on
     def rot_side():
-        fn = src.find(REL, "Motl.apply_rotation")
+        fn = find(REL, "Motl.apply_rotation")
         param = fn.args.args[1].arg
         from_e = None
         for n in ast.walk(fn):
@@ -304,7 +611,7 @@ def translate(src):
 
     # --- shift_positions: own orientation applied to the shift, added to the shift columns
     def shift_targets():
-        outer = src.find(REL, "Motl.shift_positions")
+        outer = find(REL, "Motl.shift_positions")
         fn = _inner(outer, "shift_positions")
         shift_param = outer.args.args[1].arg
         row = fn.args.args[0].arg
@@ -325,6 +632,9 @@ def translate(src):
                     out.append([mm.group(1), int(mm.group(3))])
         if len(out) != 3:
             raise core.AnchorMissing("shift_coords: expected three 'row[shift_c] = row[shift_c] + rshifts[0][i]'")
+        # the row is made floating point first (a frame whose 20 columns are all int64 hands over int64 rows; pandas 3 refuses the float shift)
+        if not (fn.body and _u(fn.body[0]) == f"{row}={row}.astype(float)"):
+            raise core.AnchorMissing(f"shift_coords: the first statement is not `{row} = {row}.astype(float)`: " + (_u(fn.body[0])[:80] if fn.body else "<empty>"))
         # both entry points apply it row by row
         calls = len(re.findall(rf'\.df\.apply\({fn.name},axis=1\)', _u(outer)))
         if calls != 2:
@@ -335,7 +645,7 @@ def translate(src):
 
     # --- flip_handedness
     def flip():
-        fn = src.find(REL, "Motl.flip_handedness")
+        fn = find(REL, "Motl.flip_handedness")
         neg_theta = any(isinstance(s, ast.Assign) and _u(s) == 'self.df.loc[:,"theta"]=-self.df.loc[:,"theta"]' for s in fn.body)
         offs, zvars, mirrors, negs = [], set(), 0, 0
         for n in ast.walk(fn):
@@ -354,7 +664,14 @@ def translate(src):
                     negs += 1
         if len(offs) != 2 or offs[0] != offs[1] or not isinstance(offs[0], int) or offs[0] < 0:
             raise core.AnchorMissing(f"flip_handedness: offsets of the two branches: {offs}")
-        return [offs[0], 1 if neg_theta else 0, mirrors, negs]
+        # the z column is converted to float BEFORE either branch mirrors into it (integer-typed z columns, pandas 3)
+        guard = next((st for st in fn.body if isinstance(st, ast.If)), None)
+        casts = 0
+        if guard is not None:
+            for i, st in enumerate(guard.body):
+                if isinstance(st, ast.Assign) and _u(st) == 'self.df["z"]=self.df["z"].astype(float)' and any(isinstance(x, ast.If) for x in guard.body[i + 1:]):
+                    casts += 1
+        return [offs[0], 1 if neg_theta else 0, mirrors, negs, casts]
 
     fl = A("flip_handedness:theta,z_dim,shift_z", flip) or DOC["flip"]
 
@@ -363,8 +680,8 @@ def translate(src):
         out = []
         for rel, q in [(REL, "Motl.get_coordinates"), (REL, "Motl.get_angles"), (REL, "Motl.get_rotations"), (REL, "Motl.update_coordinates"),
                        (REL, "Motl.scale_coordinates"), (REL, "Motl.shift_positions"), (REL, "Motl.apply_rotation"),
-                       (REL, "Motl.flip_handedness"), (IOREL, "dimensions_load")]:
-            fn = src.find(rel, q)
+                       (REL, "Motl.flip_handedness"), (IOREL, "dimensions_load"), (IOREL, "imod_com_read")]:
+            fn = find(rel, q)
             a = fn.args
             if a.vararg or a.kwarg or a.kwonlyargs or a.posonlyargs:
                 raise core.AnchorMissing(f"{q}: unexpected *args/**kwargs/keyword-only parameters")
@@ -380,7 +697,17 @@ def translate(src):
     # --- whole bodies, alpha-normalised (G5): any added / removed / reordered statement is seen, a renamed local is not
     bodies = {}
     for lean_name, rel, q in BODIES:
-        bodies[lean_name] = A(f"body:{q}", lambda rel=rel, q=q: alpha_lines(src.find(rel, q)))
+        def whole(rel=rel, q=q, lean_name=lean_name):
+            d = alpha_lines(src.find(rel, q))
+            bodies[lean_name] = d  # the text actually found goes to Gen (the Lean theorem compares it with the documented literal)
+            if d != DOC_BODIES[lean_name]:
+                raise core.AnchorMissing(_body_diff(src, rel, q, d, DOC_BODIES[lean_name]))
+            return f"{len(d)} entries"
+        bodies.setdefault(lean_name, None)
+        A(f"body:{q}", whole)
+    # helpers reached through dimensions_load only with a tomo_idx argument (never by flip_handedness): looked up so that the
+    # framework's binding obligations (single definition, no re-binding, documented decorators) cover them too
+    A("lookup:tlt_load,is_float", lambda: [src.find(IOREL, "tlt_load").name, src.find(IOREL, "is_float").name])
 
     def lst(xs):
         return core.lean_str_list(xs)
@@ -421,6 +748,8 @@ def flipNegatesTheta : Bool := {"true" if fl[1] else "false"}
 /-- number of branches with `z = z_dim - z` / with `shift_z = -shift_z` -/
 def flipMirrorBranches : Nat := {fl[2]}
 def flipShiftBranches : Nat := {fl[3]}
+/-- number of `self.df["z"] = self.df["z"].astype(float)` statements placed before the mirror branches -/
+def flipFloatCasts : Nat := {fl[4]}
 /-- (function, parameter, default value as written; "" = no default) for every call the adapter makes -/
 def signatures : List (String × String × String) := {tuples(sg)}
 /-! whole function bodies: docstrings dropped, local names replaced by v0, v1, … in order of first binding -/
@@ -463,19 +792,30 @@ def _maxdiff(a, b):
 # ------------------------------------------------------------------ generators
 GRID = 1024.0
 TOMOS = [1.0, 2.0, 3.0, 7.0, 12.0]
-INDEX_KINDS = ["default", "default", "permuted", "offset", "sparse"]
+INDEX_KINDS = ["default", "default", "permuted", "offset", "sparse", "dup"]
+# scipy's as_euler declares gimbal lock for |theta| <= 1e-7 rad = 5.7e-6 degrees (and next to 180): both sides of that threshold
+NEAR_GIMBAL = [1e-9, 1e-7, 3e-6, 5e-6, 1e-5, 180 - 4e-6, 180 + 3e-6, -3e-6, 180 - 1e-5]
+INT_GROUPS = dict(xyz=["x", "y", "z"], shift=["shift_x", "shift_y", "shift_z"], angles=["phi", "theta", "psi"],
+                  rest=["score", "geom1", "geom2", "subtomo_id", "tomo_id", "object_id", "subtomo_mean", "geom3", "geom4", "geom5", "class"])
 
 
 def _dy(rng, lo, hi):
     return rng.randint(int(lo * GRID), int(hi * GRID)) / GRID
 
 
-def _coord(rng, grid):
+def _dec(rng, lo, hi):
+    """a value as a user types or a program prints it: 1..3 decimals (off the dyadic grid, e.g. 101.3, 57.25, 12.345)"""
+    return round(rng.uniform(lo, hi), rng.choice([1, 2, 2, 3]))
+
+
+def _coord(rng, grid, whole=False):
     k = rng.random()
-    if k < 0.55:
+    if k < 0.55 or whole:
         return float(rng.randint(-60, 900))
-    if k < 0.8 or grid:
+    if k < 0.75 or grid:
         return _dy(rng, -50, 900)
+    if k < 0.88:
+        return _dec(rng, -50, 900)
     return rng.uniform(-50, 900)
 
 
@@ -486,8 +826,10 @@ def _nonint_coord(rng, grid):
             return v
 
 
-def _shift_val(rng, grid, c):
+def _shift_val(rng, grid, c, whole=False):
     k = rng.random()
+    if whole:
+        return 0.0 if k < 0.5 else float(rng.randint(-3, 3))
     if k < 0.15:
         return 0.0
     if k < 0.35:  # exact half-integer complete position (tie), both signs
@@ -496,13 +838,21 @@ def _shift_val(rng, grid, c):
         return sv if c + sv == math.floor(c) + n + 0.5 else n + 0.5
     if k < 0.45:
         return float(rng.randint(-3, 3))
-    if k < 0.8 or grid:
+    if k < 0.75 or grid:
         return _dy(rng, -4, 4)
+    if k < 0.88:
+        return _dec(rng, -4, 4)
     return rng.gauss(0, 1.5)
 
 
-def _angle(rng, kind):
+def _angle(rng, kind, whole=False, near=False):
     k = rng.random()
+    if whole:  # whole-number angles, as a STAR / CSV file with 0, 90, 45, 30 ... holds them
+        return float(rng.choice([0, 0, 90, 180, -90, 45, 30, 60, 120, 270, -45, rng.randint(-180, 360)]))
+    if kind == "theta" and (near or k > 0.97):
+        return rng.choice(NEAR_GIMBAL)
+    if 0.70 < k < 0.85:
+        return _dec(rng, 0.0, 180.0) if kind == "theta" else _dec(rng, -180.0, 360.0)
     if kind == "theta":
         if k < 0.12:
             return rng.choice([0.0, 180.0])
@@ -520,7 +870,7 @@ def _angle(rng, kind):
     return rng.uniform(-360.0, 720.0)
 
 
-def _rows(rng, n, grid, id_base=0):
+def _rows(rng, n, grid, id_base=0, whole=False, near=False):
     """n rows of 20 values in Motl.motl_columns order; subtomo ids are distinct (the harness follows a particle by its id)"""
     pool = rng.sample(TOMOS, rng.randint(1, 3))
     ids = list(range(1, n + 1)) if rng.random() < 0.5 else rng.sample(range(1, 4000), n)
@@ -528,7 +878,10 @@ def _rows(rng, n, grid, id_base=0):
     rows = []
     for i in range(n):
         k = rng.random()
-        if k < 0.12 or (zero_shift_list and k < 0.6):  # no residual shift at all but non-integer coordinates
+        if whole:
+            c = [_coord(rng, grid, True) for _ in range(3)]
+            s = [_shift_val(rng, grid, ci, True) for ci in c]
+        elif k < 0.12 or (zero_shift_list and k < 0.6):  # no residual shift at all but non-integer coordinates
             c = [_nonint_coord(rng, grid) if rng.random() < 0.8 else _coord(rng, grid) for _ in range(3)]
             s = [0.0, 0.0, 0.0]
         elif zero_shift_list:
@@ -541,39 +894,60 @@ def _rows(rng, n, grid, id_base=0):
                  subtomo_id=float(ids[i] + id_base), tomo_id=rng.choice(pool), object_id=float(rng.randint(1, 4)),
                  subtomo_mean=float(rng.randint(0, 1)), x=c[0], y=c[1], z=c[2], shift_x=s[0], shift_y=s[1], shift_z=s[2],
                  geom3=float(rng.randint(0, 5)), geom4=rng.choice([0.0, 1.5, -2.25]), geom5=float(rng.randint(0, 9)),
-                 phi=_angle(rng, "phi"), psi=_angle(rng, "psi"), theta=_angle(rng, "theta"))
+                 phi=_angle(rng, "phi", whole), psi=_angle(rng, "psi", whole), theta=_angle(rng, "theta", whole, near and rng.random() < 0.8))
         r["class"] = float(rng.randint(1, 3))
         rows.append([r[c_] for c_ in COLS])
     return rows
 
 
-def _gen_Q(rng):
+def _gen_Q(rng, near=False):
     k = rng.random()
+    if near:  # keeps a near-gimbal particle near gimbal lock: identity or a rotation about z
+        k = rng.choice([0.01, 0.35, 0.35, 0.9])
     if k < 0.08:
         ang = (0.0, 0.0, 0.0)
     elif k < 0.3:
         ang = tuple(rng.choice([0.0, 90.0, 180.0, -90.0]) for _ in range(3))
     elif k < 0.42:  # in-plane rotations of either sense
         ang = (rng.choice([-40.0, 240.0, 270.0, 120.0, -120.0, rng.uniform(-180, 180)]), 0.0, 0.0)
+    elif k < 0.5:
+        ang = (_dec(rng, -180, 180), _dec(rng, 0, 180), _dec(rng, -180, 180))
     else:
         ang = (rng.uniform(-180, 180), rng.uniform(0, 180), rng.uniform(-180, 180))
     q = rot_zxz(*ang)
     return dict(kind="rotate", q=[f2b(v) for r in q for v in r], angles=list(ang), kw=rng.random() < 0.3)
 
 
-def _gen_dims(rng, tomos, grid):
+FORMS1 = ["list", "listint", "tuple", "tupleint", "array", "arrayint", "array2d", "df", "dfint", "file", "com"]
+FORMSN = ["array", "arrayint", "list", "listint", "tuple", "df", "dfint", "file"]
+INT_FORMS = ("listint", "tupleint", "arrayint", "dfint", "file", "com")  # forms that hold whole numbers only
+
+
+def _gen_dims(rng, tomos, grid, halfint=False):
     k = rng.random()
-    # dimensions are whole numbers of voxels; non-integer ones only where no text file is involved (pandas' default
-    # float parser is not correctly rounded, which is no concern of this property)
-    form1 = rng.choice(["list", "array", "df", "dfint", "file", "com"])
-    formN = rng.choice(["array", "df", "file"])
-    textual = lambda form: form in ("file", "com", "dfint")
-    dimz = lambda form: float(rng.randint(100, 2000)) if (grid or textual(form) or rng.random() < 0.8) else rng.uniform(100, 2000)
+    # dimensions are whole numbers of voxels; non-integer ones only where no text file / integer container is involved
+    # (pandas' default float parser is not correctly rounded, which is no concern of this property)
+    form1 = rng.choice(FORMS1)
+    formN = rng.choice(FORMSN)
+    if halfint:  # a mirror plane that is not a whole number (a binned tomogram): 50.5
+        form1 = rng.choice(["list", "tuple", "array", "array2d", "df"])
+        formN = rng.choice(["array", "list", "tuple", "df"])
+    textual = lambda form: form in INT_FORMS
+    def dimz(form):
+        if halfint:
+            return rng.randint(100, 2000) + 0.5
+        if grid or textual(form) or rng.random() < 0.8:
+            return float(rng.randint(100, 2000))
+        return _dec(rng, 100, 2000) if rng.random() < 0.5 else rng.uniform(100, 2000)
     kw = rng.random() < 0.3
     if k < 0.4:
         return dict(kind="flip", dims=dict(single=f2b(dimz(form1))), form=form1, kw=kw)
     if k < 0.45:
         return dict(kind="flip", dims=None, form="none", omit=rng.random() < 0.5, kw=kw)
+    if k < 0.48:  # a table of a shape dimensions_load documents it refuses (ValueError): neither 1 x 3 nor N x 4
+        shape = rng.choice([(1, 2), (2, 3), (1, 5), (3, 5), (2, 2)])
+        bad = [[f2b(float(rng.randint(1, 900))) for _ in range(shape[1])] for _ in range(shape[0])]
+        return dict(kind="flip", dims=dict(bad=bad), form=rng.choice(["array", "list", "tuple", "df"]), kw=kw)
     present = list(tomos)
     if rng.random() < 0.08 and len(present) > 1:
         present = present[:-1]  # a tomogram without dimensions: outside the quantifier (model-only comparison)
@@ -585,16 +959,21 @@ def _gen_dims(rng, tomos, grid):
         t, z = rng.choice(table)
         dup = [t, z if rng.random() < 0.6 else f2b(dimz(formN))]
         table.insert(rng.randint(0, len(table)), dup)
-    return dict(kind="flip", dims=dict(table=table), form=formN, kw=kw)
+    op = dict(kind="flip", dims=dict(table=table), form=formN, kw=kw)
+    if len(table) == 1 and formN in ("array", "arrayint", "list", "listint", "tuple") and rng.random() < 0.5:
+        op["flat"] = True  # one tomogram: the row given flat, [tomo_id, x, y, z]
+    return op
 
 
-def _gen_op(rng, tomos, grid, kinds):
+def _gen_op(rng, tomos, grid, kinds, near=False, halfint=False):
     kind = rng.choice(kinds)
     if kind == "update":
         return dict(kind="update")
     if kind == "scale":
         if grid or rng.random() < 0.6:
             f = rng.choice([0.5, 2.0, 0.25, 4.0, 1.5, 0.75, 1.0, 3.0, 0.125, 1.25])
+        elif rng.random() < 0.5:
+            f = rng.choice([1.35, 0.66, 2.27, 0.8, 1.1, 3.3, 0.454, _dec(rng, 0.1, 5.0) or 0.1])  # pixel-size ratios as typed
         else:
             f = rng.uniform(0.1, 5.0)
         return dict(kind="scale", f=f2b(f), kw=rng.random() < 0.3)
@@ -606,14 +985,16 @@ def _gen_op(rng, tomos, grid, kinds):
             v = [_dy(rng, -20, 20) for _ in range(3)]
         elif k < 0.65:
             v = [0.0, 0.0, 0.0]; v[rng.randrange(3)] = float(rng.randint(-10, 10))
+        elif k < 0.8:
+            v = [_dec(rng, -20, 20) for _ in range(3)]
         else:
             v = [rng.gauss(0, 8) for _ in range(3)]
         # inplace: "omit" = the keyword is left out (library default), True / False = passed explicitly
         return dict(kind="shift", v=[f2b(x) for x in v], inplace=rng.choice(["omit", "omit", True, False, False]),
-                    form=rng.choice(["array", "array", "list", "tuple"]), kw=rng.random() < 0.3)
+                    form=rng.choice(["array", "array", "list", "tuple", "listint" if all(x == int(x) for x in v) else "list"]), kw=rng.random() < 0.3)
     if kind == "rotate":
-        return _gen_Q(rng)
-    return _gen_dims(rng, tomos, grid)
+        return _gen_Q(rng, near and rng.random() < 0.7)
+    return _gen_dims(rng, tomos, grid, halfint and rng.random() < 0.6)
 
 
 def _combine(a, b):
@@ -628,6 +1009,29 @@ def _combine(a, b):
     return None
 
 
+def _conj_op(o):
+    """python mirror of Lean `conjOp`: the operation whose effect on the mirrored list is the mirror image of o's effect"""
+    if o["kind"] == "shift":
+        v = [b2f(x) for x in o["v"]]
+        return dict(o, v=[f2b(v[0]), f2b(v[1]), f2b(-v[2])])
+    if o["kind"] == "rotate":
+        q = [[b2f(o["q"][3 * i + j]) for j in range(3)] for i in range(3)]
+        return dict(kind="rotate", q=[f2b(v) for r in _mm(MZ, _mm(q, MZ)) for v in r], kw=o.get("kw", False))
+    return o
+
+
+def _push_flips(ops):
+    """python mirror of Lean `pushFlips false`: flips removed, every other operation mirrored iff an odd number of flips precede it;
+    returns (flip-free history, parity of the number of flips)"""
+    par, out = False, []
+    for o in ops:
+        if o["kind"] == "flip":
+            par = not par
+        else:
+            out.append(_conj_op(o) if par else o)
+    return out, par
+
+
 def _tomos_of(rows):
     return sorted({r[TOMO] for r in rows})
 
@@ -638,15 +1042,29 @@ def generate(rng, tier, n):
         nrows = rng.randint(1, 8) if tier != "thorough" or rng.random() < 0.9 else rng.randint(9, 40)
         if rng.random() < 0.015:
             nrows = 0  # the empty list is a particle list too
-        rows = _rows(rng, nrows, grid)
+        # H3: a list as Starfile / CSV reading gives it: every column whose values are all whole numbers is int64 ("auto"); a share of
+        # lists holds whole numbers only (picked positions, zero or whole shifts, angles 0 / 90 / 45 ...) with chosen column groups int64
+        whole = rng.random() < 0.09
+        near = (not grid) and (not whole) and rng.random() < 0.10  # particles next to gimbal lock (both sides of scipy's 1e-7 rad zone)
+        intcols = None
+        if whole:
+            intcols = rng.choice([["auto"], ["angles"], ["xyz"], ["xyz", "shift"], ["xyz", "angles"], ["shift"], ["rest"], ["xyz", "shift", "angles", "rest"]])
+        elif rng.random() < 0.15:
+            intcols = ["auto"]
+        rows = _rows(rng, nrows, grid, whole=whole, near=near)
         two = rng.random() < 0.15  # G2: a second list in the same process, sharing caller-owned arguments with the first
-        rows2 = _rows(rng, rng.randint(1, 5), grid, id_base=5000) if two else None
+        rows2 = _rows(rng, rng.randint(1, 5), grid, id_base=5000, whole=whole and rng.random() < 0.5) if two else None
         tomos = sorted(set(_tomos_of(rows) + (_tomos_of(rows2) if two else [])))
         maxops = 6 if (tier != "thorough" or rng.random() < 0.85) else 30
         compose = (not two) and rng.random() < 0.4
         nops = rng.randint(0, maxops - 2) if compose else rng.randint(1, maxops)
         kinds = ["update", "scale", "flip", "rotate"] if grid else ["update", "scale", "shift", "rotate", "flip", "shift", "rotate", "flip"]
-        ops = [_gen_op(rng, tomos, grid, kinds) for _ in range(nops)]
+        if near:
+            kinds = ["rotate", "rotate", "rotate", "shift", "flip", "update", "scale"]
+        if whole:
+            kinds = ["rotate", "flip", "flip", "shift", "update", "scale", "rotate"]
+        G = lambda ks: _gen_op(rng, tomos, grid, ks, near, whole)
+        ops = [G(kinds) for _ in range(nops)]
         if rng.random() < 0.08 and not grid:  # the history a freshly picked list really gets: scale by a non-integer factor, then update
             ops = [dict(kind="scale", f=f2b(rng.choice([1.5, 0.75, 1.25, 2.5]))), dict(kind="update")] + ops[:maxops - 2]
         nscale = 0
@@ -657,15 +1075,30 @@ def generate(rng, tier, n):
                     ops[i] = dict(kind="update")
         case = dict(rows=[[f2b(v) for v in r] for r in rows], ops=ops, index=rng.choice(INDEX_KINDS),
                     reindex=rng.random() < 0.6, bytomo=rng.random() < 0.35)
+        if intcols:
+            case["intcols"] = intcols
         if two:
             case["rows2"] = [[f2b(v) for v in r] for r in rows2]
             case["index2"] = rng.choice(INDEX_KINDS)
             for o in ops:
                 o["on"] = rng.randint(0, 1)
+        if (not two) and (not compose) and rng.random() < 0.09:
+            # the composition law for histories with flips (Lean spec_history_flip_parity): a scale-free history whose flips all use the same
+            # dimensions equals its flip-free mirrored normal form followed by ONE flip iff the number of flips is odd -- run both on the real code
+            fl = None
+            while fl is None or fl["dims"] is None or "bad" in fl["dims"]:
+                fl = G(["flip"])
+            body = [G(["update", "shift", "rotate", "shift", "rotate"]) for _ in range(rng.randint(1, 3))]
+            nf = rng.randint(1, 3)
+            hist = body + [copy.deepcopy(fl) for _ in range(nf)]
+            rng.shuffle(hist)
+            nf_, par = _push_flips(hist)
+            case["ops"] = hist
+            case["twin"] = dict(at=0, ops=nf_ + ([copy.deepcopy(fl)] if par else []), clause="history-flip-parity")
         if compose:  # a composition clause: (shift,shift) (rotate,rotate) (flip,flip) somewhere in the history
             kind = rng.choice(["flip", "rotate"] if grid else ["shift", "rotate", "flip"])
-            a = _gen_op(rng, tomos, grid, [kind])
-            b = copy.deepcopy(a) if kind == "flip" else _gen_op(rng, tomos, grid, [kind])
+            a = G([kind])
+            b = copy.deepcopy(a) if kind == "flip" else G([kind])
             if kind == "flip" and rng.random() < 0.6:  # the natural way to flip twice: the very same dimension object / file
                 a["share"] = b["share"] = "twin"
             at = rng.randint(0, len(ops))
@@ -689,11 +1122,11 @@ def generate(rng, tier, n):
                 if twin_ok:  # add one more call with the same object (same content, or legitimately rewritten content)
                     o2 = copy.deepcopy(src_op)
                     if rng.random() < 0.4 and k != "rotate":
-                        fresh = _gen_op(rng, tomos, grid, [k])
+                        fresh = G([k])
                         if k == "shift":
                             o2["v"] = fresh["v"]
-                        elif fresh["dims"] is not None and src_op["dims"] is not None and ("single" in fresh["dims"]) == ("single" in src_op["dims"]):
-                            if not (src_op["form"] in ("file", "com", "dfint") and any(b2f(z) != math.floor(b2f(z)) for z in ([fresh["dims"]["single"]] if "single" in fresh["dims"] else [r[1] for r in fresh["dims"]["table"]]))):
+                        elif fresh["dims"] is not None and src_op["dims"] is not None and "bad" not in fresh["dims"] and "bad" not in src_op["dims"] and ("single" in fresh["dims"]) == ("single" in src_op["dims"]):
+                            if not (src_op["form"] in INT_FORMS and any(b2f(z) != math.floor(b2f(z)) for z in ([fresh["dims"]["single"]] if "single" in fresh["dims"] else [r[1] for r in fresh["dims"]["table"]]))):
                                 o2["dims"] = fresh["dims"]
                     if two:
                         o2["on"] = 1 - src_op.get("on", 0)
@@ -721,6 +1154,11 @@ def shrink(case):
     if len(ops) > 1:
         for i in range(len(ops)):
             yield dict(base, ops=ops[:i] + ops[i + 1:])
+    if case.get("intcols"):
+        yield {k: v for k, v in case.items() if k != "intcols"}
+        if case["intcols"] != ["auto"] and len(case["intcols"]) > 1:
+            for g in case["intcols"]:
+                yield dict(case, intcols=[g])
     if case.get("bytomo"):
         yield dict(case, bytomo=False)
     if case.get("reindex"):
@@ -751,14 +1189,15 @@ def sample_view(case):
         if "q" in o: v["q"] = [round(b2f(x), 6) for x in o["q"]]
         if o["kind"] == "flip":
             d = o["dims"]
-            v["dims"] = None if d is None else ({"single": b2f(d["single"])} if "single" in d else {"table": [[b2f(a), b2f(b)] for a, b in d["table"]]})
+            v["dims"] = None if d is None else ({"single": b2f(d["single"])} if "single" in d else {"undocumented-shape": [[b2f(a) for a in r] for r in d["bad"]]} if "bad" in d else {"table": [[b2f(a), b2f(b)] for a, b in d["table"]]})
             v["form"] = o.get("form")
-        for k in ("on", "share", "inplace", "kw", "omit"):
+        for k in ("on", "share", "inplace", "kw", "omit", "flat"):
             if k in o: v[k] = o[k]
         return v
     return dict(rows=[[b2f(b) for b in r] for r in case["rows"]][:3], n_rows=len(case["rows"]), fields=COLS,
                 n_rows2=len(case.get("rows2") or []), ops=[opv(o) for o in case["ops"]][:8], n_ops=len(case["ops"]),
-                twin=case.get("twin", {}).get("clause"), index=case.get("index"), reindex=case.get("reindex"), bytomo=case.get("bytomo"))
+                twin=case.get("twin", {}).get("clause"), index=case.get("index"), reindex=case.get("reindex"), bytomo=case.get("bytomo"),
+                integer_typed_columns=case.get("intcols"))
 
 
 def _norm_case(case):
@@ -796,7 +1235,15 @@ def _dims_content(op):
         return None
     if "single" in d:
         return [[512.0, 480.0, b2f(d["single"])]]
+    if "bad" in d:
+        return [[b2f(v) for v in r] for r in d["bad"]]
     return [[b2f(t), 512.0, 480.0, b2f(z)] for t, z in d["table"]]
+
+
+def _raw_bits(op):
+    """the table of the call as the caller gave it (bit patterns), for the model's own shape dispatch (Lean `loadDims`)"""
+    tab = _dims_content(op)
+    return None if tab is None else [[f2b(v) for v in r] for r in tab]
 
 
 def _write_dims(path, tab, com):
@@ -824,7 +1271,9 @@ def _arg_snapshot(obj):
     if isinstance(obj, Rotation):
         return ["rotation", [f2b(float(v)) for v in obj.as_matrix().ravel().tolist()]]
     if isinstance(obj, (list, tuple)):
-        return [type(obj).__name__, [f2b(float(v)) for v in obj]]
+        a = np.asarray(obj, dtype=float)
+        leaf = obj[0][0] if (len(obj) and isinstance(obj[0], (list, tuple)) and len(obj[0])) else (obj[0] if len(obj) else None)
+        return [type(obj).__name__, list(a.shape), type(leaf).__name__, [f2b(float(v)) for v in a.ravel().tolist()]]
     return ["other", repr(obj)[:80]]
 
 
@@ -854,26 +1303,35 @@ def _make_arg(op, idx, shared, td):
         tab, form = _dims_content(op), op.get("form", "array")
         if tab is None:
             obj = None
-        elif form in ("file", "com"):
-            obj = have if have is not None else os.path.join(td, f"dims_{key or idx}" + (".com" if form == "com" else ".txt"))
-            _write_dims(obj, tab, form == "com")
-        elif have is not None and isinstance(have, pd.DataFrame) and have.shape == (len(tab), len(tab[0])):
-            have.iloc[:, :] = np.array(tab, dtype=have.to_numpy().dtype)
-            obj = have
-        elif have is not None and isinstance(have, np.ndarray) and have.size == len(tab) * len(tab[0]):
-            have[...] = np.array(tab).reshape(have.shape)
-            obj = have
-        elif have is not None and isinstance(have, list) and len(tab) == 1:
-            have[:] = tab[0]
-            obj = have
-        elif form == "list":
-            obj = list(tab[0])
-        elif form == "df":
-            obj = pd.DataFrame(tab)
-        elif form == "dfint":
-            obj = pd.DataFrame([[int(v) for v in r] for r in tab])
         else:
-            obj = np.array(tab[0]) if len(tab[0]) == 3 else np.array(tab)
+            flat = len(tab) == 1 and ("single" in op["dims"] or bool(op.get("flat")) or ("bad" in op["dims"] and form != "df"))
+            whole = all(v == int(v) for r in tab for v in r)
+            num = (lambda v: int(v)) if (form in ("listint", "tupleint", "arrayint", "dfint") and whole) else (lambda v: v)
+            nested = [[num(v) for v in r] for r in tab]
+            if form in ("file", "com"):
+                obj = have if isinstance(have, str) else os.path.join(td, f"dims_{key or idx}" + (".com" if form == "com" else ".txt"))
+                _write_dims(obj, tab, form == "com")
+            elif isinstance(have, pd.DataFrame) and have.shape == (len(tab), len(tab[0])):
+                have.iloc[:, :] = np.array(nested, dtype=have.to_numpy().dtype)
+                obj = have
+            elif isinstance(have, np.ndarray) and have.size == len(tab) * len(tab[0]) and (have.ndim == 1) == flat:
+                have[...] = np.array(nested).reshape(have.shape)
+                obj = have
+            elif isinstance(have, list) and (flat == (not (have and isinstance(have[0], list)))):
+                have[:] = nested[0] if flat else nested  # the caller rewrites its own list in place
+                obj = have
+            elif isinstance(have, tuple) and np.asarray(have, dtype=float).tolist() == (tab[0] if flat else tab):
+                obj = have  # an unchanged tuple is the same object; a changed one is necessarily a new one
+            elif form in ("list", "listint"):
+                obj = list(nested[0]) if flat else nested
+            elif form in ("tuple", "tupleint"):
+                obj = tuple(nested[0]) if flat else tuple(tuple(r) for r in nested)
+            elif form in ("df", "dfint"):
+                obj = pd.DataFrame(nested)
+            elif form == "array2d":
+                obj = np.array(nested)
+            else:  # array / arrayint
+                obj = np.array(nested[0]) if flat else np.array(nested)
     else:
         obj = None
     if key and obj is not None:
@@ -937,14 +1395,23 @@ def _index_labels(kind, n):
         return [10 + i for i in range(n)]
     if kind == "sparse":
         return [3 * i + 2 for i in reversed(range(n))]
+    if kind == "dup":  # two tables concatenated without ignore_index: every label twice (Motl(df) keeps them)
+        return [i % ((n + 1) // 2) for i in range(n)]
     return None
 
 
-def _build(rows, index):
+def _build(rows, index, intcols=None):
     import pandas as pd
     from cryocat import cryomotl
     data = {c: [b2f(r[j]) for r in rows] for j, c in enumerate(COLS)}
     df = pd.DataFrame(data, columns=COLS, dtype=float)
+    # H3: integer-typed columns, as reading a STAR / CSV file with whole-number values produces them ("auto": every all-whole column)
+    want = set()
+    for g in intcols or []:
+        want.update(COLS if g == "auto" else INT_GROUPS.get(g, []))
+    for c in COLS:
+        if c in want and len(df) and all(v == math.floor(v) and abs(v) < 2 ** 53 for v in data[c]):
+            df[c] = df[c].astype("int64")
     lab = _index_labels(index, len(rows))
     if lab is not None:
         df.index = lab
@@ -958,13 +1425,25 @@ def _where(e):
     return (f"{os.path.basename(frames[-1].filename)}:{frames[-1].lineno}" if frames else ""), bool(frames)
 
 
+def _load_obs(arg):
+    """the top-level entry point `ioutils.dimensions_load` on the very argument of the flip call: shape, column labels and
+    values of what it returns, or the TYPE of what it raises"""
+    from cryocat import ioutils
+    try:
+        d = ioutils.dimensions_load(arg)
+        return dict(shape=list(d.shape), cols=[str(c) for c in d.columns], v=[[_cell(v) for v in r] for r in d.to_numpy().tolist()])
+    except Exception as e:
+        where, inside = _where(e)
+        return dict(raised=type(e).__name__, error=f"{type(e).__name__}: {str(e)[:200]}", where=where, in_cryocat=inside)
+
+
 def _run_history(case, ops, td):
     import numpy as np, warnings
     from cryocat import cryomotl
     lists = [case["rows"]] + ([case["rows2"]] if case.get("rows2") else [])
     kinds = [case.get("index", "default"), case.get("index2", "default")]
     tomos = [sorted({b2f(r[TOMO]) for r in rows}) for rows in lists]
-    ms = [_build(rows, kinds[j]) for j, rows in enumerate(lists)]
+    ms = [_build(rows, kinds[j], case.get("intcols")) for j, rows in enumerate(lists)]
     bytomo = bool(case.get("bytomo"))
     snap_all = lambda: [_snap(m, tomos[j], bytomo) for j, m in enumerate(ms)]
     shared, steps = {}, []
@@ -1015,9 +1494,16 @@ def _run_history(case, ops, td):
                 if a0 != a1:
                     rec["arg_changed"] = dict(before=a0, after=a1)
                 rec["after"] = snap_all()
+                if k == "flip" and arg is not None:
+                    rec["dims_loaded"] = _load_obs(arg)
             except Exception as e:
                 where, inside = _where(e)
-                rec["raised"] = dict(error=f"{type(e).__name__}: {str(e)[:300]}", where=where, in_cryocat=inside)
+                rec["raised"] = dict(error=f"{type(e).__name__}: {str(e)[:300]}", where=where, in_cryocat=inside, type=type(e).__name__)
+                if k == "flip" and op.get("dims") is not None:
+                    try:
+                        rec["dims_loaded"] = _load_obs(_make_arg(op, i, shared, td))
+                    except Exception:
+                        pass
                 break
     return out
 
@@ -1038,7 +1524,10 @@ def run_impl(case):
 
 # ------------------------------------------------------------------ requests to the Lean driver
 def _wire_op(o):
-    return {k: o[k] for k in ("kind", "f", "v", "q", "dims") if k in o}
+    w = {k: o[k] for k in ("kind", "f", "v", "q") if k in o}
+    if o["kind"] == "flip":  # the raw table: the Lean model does the shape dispatch of dimensions_load itself (`loadDims`)
+        w["raw"] = _raw_bits(o)
+    return w
 
 
 def _fr(b):
@@ -1057,7 +1546,7 @@ def _spec_dz(op, tomo_bits):
     """the z size the STATEMENT uses for a particle of this tomogram (python mirror of Lean `specDim`): None when no dimensions
     are given, the table has no row for the tomogram, or its rows for it disagree -> the call is outside the quantifier"""
     d = op["dims"]
-    if d is None:
+    if d is None or "bad" in d:
         return None
     if "single" in d:
         return d["single"]
@@ -1119,6 +1608,8 @@ def _plan(case, obs):
     for i, rec in enumerate(obs["steps"]):
         op = case["ops"][i]
         L = op.get("on", 0)
+        if "dims_loaded" in rec:
+            plan.append(("loaddims", i, L))
         if "after" not in rec:
             ok = [False] * nl
             break
@@ -1132,6 +1623,8 @@ def _plan(case, obs):
     for L in range(nl):
         if ok[L] and len(obs["steps"]) == len(case["ops"]) and _usable(obs["initial"][L]):
             plan.append(("history", None, L))
+            if L == 0 and case.get("twin", {}).get("clause") == "history-flip-parity":
+                plan.append(("history_twin", None, 0))  # the statement folded over the NORMAL FORM, evaluated by Lean too
     return plan
 
 
@@ -1141,12 +1634,16 @@ def requests(case, obs):
         return []
     reqs = []
     for what, i, L in _plan(case, obs):
-        if what == "history":
+        if what == "history_twin":
+            reqs.append(dict(op="history", rows=case["rows"], ops=[_wire_op(o) for o in case["twin"]["ops"]]))
+        elif what == "history":
             rows = case["rows2"] if L == 1 else case["rows"]
             reqs.append(dict(op="history", rows=rows, ops=[_wire_op(o) for o in case["ops"] if o.get("on", 0) == L]))
         else:
             rec, op = obs["steps"][i], case["ops"][i]
-            if what == "step":
+            if what == "loaddims":
+                reqs.append(dict(op="loaddims", raw=_raw_bits(op)))
+            elif what == "step":
                 reqs.append(dict(op="step", rows=rec["before"][L]["cells"], **_wire_op(op)))
             else:
                 reqs.append(dict(op="check", before=rec["before"][L]["cells"], after=rec["after"][L]["cells"], **_wire_op(op)))
@@ -1169,6 +1666,49 @@ def _pose_of_wire(p):
 
 def _close(a, b, scale):
     return abs(a - b) <= TOL * (1.0 + scale)
+
+
+def _gimbal_allow(M):
+    """H4: allowance for an orientation matrix rebuilt from the Euler triple `as_euler` returned for the matrix M. scipy declares
+    gimbal lock when theta is within 1e-7 rad of 0 or pi; it then sets the third angle to 0 and keeps theta, so the returned
+    triple reproduces M only up to the off-pole part it dropped: measured max |dev| = 2.00 * sin(theta) on 2000 orientations for
+    each theta in {1e-9 .. 5.7e-6 degrees, 180 -+ 4e-6}, and 1e-15 just outside the zone (5.8e-6 degrees). This is the
+    representation limit of scipy's Euler triples next to the pole (at most 2e-7), not a statement about cryoCAT: allowance
+    3 sin(theta) while sin(theta) <= 1.5e-7 (margin for the zone test itself), nothing outside; sin(theta) = |(M13, M23)|."""
+    st = math.hypot(M[0][2], M[1][2])
+    return 3.0 * st + 1e-12 if st <= 1.5e-7 else 0.0
+
+
+def _judge_loaddims(tag, op, rec, resp):
+    """dimensions_load called directly on the argument of the flip vs. the Lean shape dispatch `loadDims` (kind corr), and the
+    documented refusal: a table that is neither 1 x 3 nor N x 4 raises ValueError (classified by exception TYPE, H1)"""
+    out = []
+    got = rec["dims_loaded"]
+    if "error" in resp or "ok" not in resp:
+        return [dict(kind="corr", clause="model-error", detail=f"{tag}: loaddims {resp}")]
+    if "raised" in got:
+        if not got["in_cryocat"]:
+            return [dict(kind="corr", clause="harness-or-library-raised", detail=f"{tag}: dimensions_load: {got['error']} (no frame inside cryocat)")]
+        if resp["ok"]:
+            inside = "bad" not in op["dims"]
+            return [dict(kind="spec" if inside else "corr", clause="dimensions-load-raises" if inside else "dimensions-load-vs-model",
+                         detail=f"{tag}: dimensions_load raised {got['error']} @{got['where']} for a {op.get('form')} of shape {len(_dims_content(op))}x{len(_dims_content(op)[0])} (documented: 1x3 or Nx4 array-like / DataFrame / file)")]
+        if got["raised"] != "ValueError":
+            out.append(dict(kind="corr", clause="refusal-type-differs-from-documented", detail=f"{tag}: a table of undocumented shape is refused with {got['raised']} (documented: ValueError)"))
+        return out
+    if not resp["ok"]:
+        return [dict(kind="corr", clause="dimensions-load-vs-model", detail=f"{tag}: dimensions_load accepted a table of shape {got['shape']} that the model (documented shapes 1x3 / Nx4) refuses")]
+    d = resp["dims"]
+    cells = got["v"]
+    if any(isinstance(c, dict) for r in cells for c in r):
+        return [dict(kind="corr", clause="dimensions-load-vs-model", detail=f"{tag}: non-numeric cells {cells}")]
+    if d["kind"] == "single":
+        ok = got["shape"] == [1, 3] and got["cols"] == ["x", "y", "z"] and b2f(cells[0][2]) == b2f(d["z"])
+    else:
+        ok = got["shape"][1:] == [4] and got["cols"] == ["tomo_id", "x", "y", "z"] and [[b2f(r[0]), b2f(r[3])] for r in cells] == [[b2f(t), b2f(z)] for t, z in d["rows"]]
+    if not ok:
+        out.append(dict(kind="corr", clause="dimensions-load-vs-model", detail=f"{tag}: dimensions_load gives shape {got['shape']} columns {got['cols']} values {_vals(cells)}; model {d['kind']} {d.get('z') and b2f(d['z'])} {[[b2f(t), b2f(z)] for t, z in d.get('rows', [])]}"))
+    return out
 
 
 def _state_findings(S, tag, case, L):
@@ -1255,7 +1795,9 @@ def judge(case, obs, resps):
     rmap = {(w, i, L): r for (w, i, L), r in zip(plan, resps)}
     nl = 2 if case.get("rows2") else 1
     dev = dict(pos=0.0, R=0.0, resid=0.0)
-    flags = dict(angle_bits_changed=0, strict_flip_only_pos=0, dtypes=set())
+    flags = dict(angle_bits_changed=0, strict_flip_only_pos=0, dtypes=set(), refused=0, gimbal_zone=0)
+    acc = [0.0] * nl       # accumulated near-gimbal allowance of the apply_rotation calls so far, per list (see _gimbal_allow)
+    smax = [0.0] * nl      # accumulated length of the shift vectors, per list (a later shift turns an orientation error into a position error)
     alive = [True] * nl
     for L in range(nl):
         f = _state_findings(obs["initial"][L], f"initial list {L}", case, L)
@@ -1271,6 +1813,19 @@ def judge(case, obs, resps):
         for j in range(nl):
             if alive[j] and not _same_state(prev[j], rec["before"][j]):
                 out.append(dict(kind="spec", clause="list-changed-between-operations", detail=f"{tag}: list {j} differs from what the previous call left: {_vals(prev[j].get('cells', []))[:2]} -> {_vals(rec['before'][j].get('cells', []))[:2]}"))
+        if "dims_loaded" in rec and ("loaddims", i, L) in rmap:
+            out += _judge_loaddims(tag, op, rec, rmap[("loaddims", i, L)])
+        if k == "flip" and op.get("dims") and "bad" in op["dims"]:
+            # documented refusal (dimensions_load: "ValueError if the dimensions do not conform to the expected shapes of 1x3 or Nx4"):
+            # judged by exception TYPE and the violated precondition, never by the message text
+            if "raised" not in rec:
+                out.append(dict(kind="corr", clause="undocumented-shape-accepted", detail=f"{tag}: flip_handedness accepted a dimension table of shape {len(op['dims']['bad'])}x{len(op['dims']['bad'][0])}"))
+            elif not rec["raised"]["in_cryocat"]:
+                out.append(dict(kind="corr", clause="harness-or-library-raised", detail=f"{tag}: {rec['raised']['error']} (no frame inside cryocat)"))
+            elif rec["raised"].get("type") != "ValueError":
+                out.append(dict(kind="corr", clause="refusal-type-differs-from-documented", detail=f"{tag}: refused with {rec['raised']['error']} (documented: ValueError)"))
+            flags["refused"] += 1
+            break
         if "raised" in rec:
             r = rec["raised"]
             outside = k == "flip" and all(_spec_dz(op, row[TOMO]) is None for row in rec["before"][L].get("cells", []))
@@ -1314,6 +1869,9 @@ def judge(case, obs, resps):
         ra20 = [ra20[j] for j in perm]
         co_b, co_a = _vals(B["coords"]["v"]), [_vals(A["coords"]["v"])[j] for j in perm] if n else []
         step, chk = rmap.get(("step", i, L)), rmap.get(("check", i, L))
+        allow = [0.0] * n  # per particle: near-gimbal allowance of THIS apply_rotation call
+        if k == "shift":
+            smax[L] += 3.0 * max(abs(b2f(x)) for x in op["v"])
         for p in range(n):
             rb, ra = _p10(rb20[p]), _p10(ra20[p])
             cb, ca = co_b[p], co_a[p]
@@ -1347,9 +1905,14 @@ def judge(case, obs, resps):
                     out.append(dict(kind="spec", clause="shift-keeps-orientation", detail=f"{tag} particle {p}: angles {ab} -> {aa}, matrices differ by {dR_same:.3g}"))
             elif k == "rotate":
                 q = [[b2f(op["q"][3 * a + b]) for b in range(3)] for a in range(3)]
-                d = _maxdiff(Ra, _mm(Rb, q))
-                dev["R"] = max(dev["R"], d)
-                if d > TOL:
+                want_R = _mm(Rb, q)
+                d = _maxdiff(Ra, want_R)
+                allow[p] = _gimbal_allow(want_R)
+                if allow[p] > 1e-11:
+                    flags["gimbal_zone"] += 1
+                else:
+                    dev["R"] = max(dev["R"], d)
+                if d > TOL + allow[p]:
                     out.append(dict(kind="spec", clause="rotate-gives-R-times-Q", detail=f"{tag} particle {p}: angles {ab} -> {aa}; |R_after - R*Q| = {d:.3g}, |R_after - Q*R| = {_maxdiff(Ra, _mm(q, Rb)):.3g}"))
                 if any(not _close(ca[j], cb[j], mag) for j in range(3)):
                     out.append(dict(kind="spec", clause="rotate-moves-nothing", detail=f"{tag} particle {p}: complete position {cb} -> {ca}"))
@@ -1423,11 +1986,14 @@ def judge(case, obs, resps):
                 mag = max(abs(v) for v in ra[:6]) + 50
                 dp = max(abs(mp[j] - co_a[p][j]) for j in range(3))
                 dR = _maxdiff(mR, _R(ra[6:9]))
-                dev["pos"] = max(dev["pos"], dp); dev["R"] = max(dev["R"], dR)
-                if dp > TOL * (1 + mag) or dR > TOL:
+                dev["pos"] = max(dev["pos"], dp)
+                if allow[p] <= 1e-11:
+                    dev["R"] = max(dev["R"], dR)
+                if dp > TOL * (1 + mag) or dR > TOL + allow[p]:
                     out.append(dict(kind="corr", clause=f"{k}-pose-vs-model", detail=f"{tag} particle {p}: |pos diff| {dp:.3g}, |R diff| {dR:.3g}; code {ra}; model {mr}"))
                 if k == "rotate" and b2f(step["resid"]) > TOL:
                     out.append(dict(kind="corr", clause="model-euler-service-residual", detail=f"{tag}: EulerOK residual of the driver's Float service {b2f(step['resid']):.3g}"))
+        acc[L] += max(allow, default=0.0)
     # ---- whole history per list: final pose vs. the specification folded over all its operations (Lean specRun)
     for L in range(nl):
         hist = rmap.get(("history", None, L))
@@ -1458,10 +2024,24 @@ def judge(case, obs, resps):
                 mag = (max(abs(v) for v in rf[:6]) + 2100) * scale
                 dp = max(abs(sp[j] - cf[j]) for j in range(3))
                 dR = _maxdiff(sR, _R(rf[6:9]))
-                dev["pos"] = max(dev["pos"], dp); dev["R"] = max(dev["R"], dR)
-                if dp > 10 * TOL * (1 + mag) or dR > 10 * TOL:
+                if acc[L] == 0.0:
+                    dev["pos"] = max(dev["pos"], dp); dev["R"] = max(dev["R"], dR)
+                if dp > 10 * TOL * (1 + mag) + acc[L] * (1 + smax[L]) * scale or dR > 10 * TOL + acc[L]:
                     out.append(dict(kind="corr", clause=f"history-final-pose-vs-{'specification' if name == 'spec' else 'model'}",
                                     detail=f"list {L} particle {p}: |pos diff| {dp:.3g}, |R diff| {dR:.3g}; code pos {cf} angles {rf[6:9]}; {name} pos {sp}"))
+    # ---- python `_push_flips` vs the Lean theorem: the statement folded over the history and over its normal form must agree (Lean evaluates both)
+    ht, h0 = rmap.get(("history_twin", None, 0)), rmap.get(("history", None, 0))
+    if ht is not None and h0 is not None and "error" not in ht and "error" not in h0:
+        for p, (a, b) in enumerate(zip(h0["spec"], ht["spec"])):
+            if a is None:  # some flip does not cover this particle: outside the hypothesis of the theorem (and of the statement)
+                continue
+            if b is None:
+                out.append(dict(kind="corr", clause="flip-normal-form-python-vs-lean", detail=f"particle {p}: the statement is defined for the history but not for its normal form"))
+            else:
+                (pa, Ra_), (pb, Rb_) = _pose_of_wire(a), _pose_of_wire(b)
+                dp, dR = max(abs(pa[j] - pb[j]) for j in range(3)), _maxdiff(Ra_, Rb_)
+                if dp > 1e-7 * (1 + max(abs(v) for v in pa)) or dR > 1e-9:
+                    out.append(dict(kind="corr", clause="flip-normal-form-python-vs-lean", detail=f"particle {p}: specRun(history) and specRun(normal form) differ: |pos| {dp:.3g}, |R| {dR:.3g}"))
     # ---- composition clause stated directly on the real code: two calls = the one combined call
     if "twin_raised" in obs and len(obs["steps"]) == len(case["ops"]) and "raised" not in (obs["steps"][-1] if obs["steps"] else {}):
         r = obs["twin_raised"]
@@ -1483,7 +2063,8 @@ def judge(case, obs, resps):
                 mag = (max(abs(v) for v in a[:6]) + 2100) * scale
                 dp = max(abs(ct[j] - cf[j]) for j in range(3))
                 dR = _maxdiff(_R(b[6:9]), _R(a[6:9]))
-                if dp > 10 * TOL * (1 + mag) or dR > 10 * TOL:
+                # both runs may have met scipy's gimbal zone (the same calls, or the combined call where neither single one did)
+                if dp > 10 * TOL * (1 + mag) + 2 * acc[0] * (1 + smax[0]) * scale or dR > 10 * TOL + 2 * acc[0]:
                     out.append(dict(kind="spec", clause="composition-" + case["twin"]["clause"],
                                     detail=f"particle {p}: two successive calls at op {case['twin']['at']} give pos {cf} angles {a[6:9]}; the single combined call gives pos {ct} angles {b[6:9]}"))
     flags["dtypes"] = sorted(flags["dtypes"])
@@ -1509,7 +2090,11 @@ def stats(case, obs, resps):
            "op": [o["kind"] for o in ops], "index": case.get("index", "default") + ("+reimposed-before-every-op" if case.get("reindex") and case.get("index", "default") != "default" else ""),
            "twin": case.get("twin", {}).get("clause", "none"), "lists": 2 if case.get("rows2") else 1, "per_tomogram_observers": bool(case.get("bytomo"))}
     out["op_on_nondefault_index"] = [o["kind"] for i, o in enumerate(ops) if (case.get("index2" if o.get("on", 0) else "index", "default") != "default") and (case.get("reindex") or not any(p["kind"] == "shift" and p.get("on", 0) == o.get("on", 0) for p in ops[:i]))]
-    out["flip_dims"] = [("none" + ("/omitted" if o.get("omit") else "/None") if o["dims"] is None else ("single/" if "single" in o["dims"] else "table/") + o.get("form", "")) for o in ops if o["kind"] == "flip"]
+    out["flip_dims"] = [("none" + ("/omitted" if o.get("omit") else "/None") if o["dims"] is None else ("single/" if "single" in o["dims"] else "undocumented-shape/" if "bad" in o["dims"] else "table/") + o.get("form", "") + ("/flat-row" if o.get("flat") and "table" in o["dims"] and len(o["dims"]["table"]) == 1 else "")) for o in ops if o["kind"] == "flip"]
+    out["integer_typed_columns"] = "+".join(case.get("intcols") or ["none"])
+    out["near_gimbal_particle"] = any(r[THETA] % 180.0 != 0 and abs(math.sin(math.radians(r[THETA]))) < 2e-7 for r in vals)
+    out["off_grid_decimal_values"] = any(r[j] * GRID != math.floor(r[j] * GRID) and round(r[j], 3) == r[j] for r in vals for j in POSE_IDX[:9])
+    out["flip_noninteger_mirror_plane"] = any(o["kind"] == "flip" and o["dims"] and any(b2f(z) != math.floor(b2f(z)) for z in ([o["dims"]["single"]] if "single" in o["dims"] else [r[1] for r in o["dims"].get("table", [])])) for o in ops)
     cov = []
     for o in ops:
         if o["kind"] == "flip" and o["dims"] is not None and "table" in o["dims"]:
@@ -1549,6 +2134,8 @@ def stats(case, obs, resps):
             out["euler_service_residual"] = "<1e-14" if d["resid"] < 1e-14 else ("<1e-12" if d["resid"] < 1e-12 else ">=1e-12")
         if fl:
             out["column_dtypes_seen"] = fl["dtypes"] or ["(no operation)"]
+            out["documented_refusals_seen"] = fl.get("refused", 0)
+            out["rotations_inside_scipy_gimbal_zone"] = "0" if not fl.get("gimbal_zone") else "1+"
             out["angles_bit_identical_where_untouched"] = fl["angle_bits_changed"] == 0
     return out
 
@@ -1572,10 +2159,19 @@ def probes(rng):
             worst = max(worst, _maxdiff(ra.as_matrix().tolist(), rot_zxz(*a)))
             worst_mul = max(worst_mul, _maxdiff((ra * rb).as_matrix().tolist(), _mm(rot_zxz(*a), rot_zxz(*b))))
             e = (ra * rb).as_euler("zxz", degrees=True)
-            worst_rt = max(worst_rt, _maxdiff(rot_zxz(*e), (ra * rb).as_matrix().tolist()))
+            m_ = (ra * rb).as_matrix().tolist()
+            worst_rt = max(worst_rt, _maxdiff(rot_zxz(*e), m_) - _gimbal_allow(m_))
+        zone = 0.0  # inside scipy's gimbal zone the round trip is off by 2 sin(theta), as `_gimbal_allow` states (H4)
+        for th in NEAR_GIMBAL:
+            for _ in range(20):
+                a = [rng.uniform(-180, 180), th, rng.uniform(-180, 180)]
+                r_ = Rotation.from_euler("zxz", a, degrees=True)
+                m_ = rot_zxz(*a)
+                zone = max(zone, _maxdiff(rot_zxz(*r_.as_euler("zxz", degrees=True)), m_) - _gimbal_allow(m_))
     out.append(dict(name="scipy from_euler('zxz',deg) = Rz(psi)Rx(theta)Rz(phi)", ok=worst < 1e-12, detail=f"max dev {worst:.2e} on 200 triples"))
     out.append(dict(name="scipy Rotation '*' = matrix product", ok=worst_mul < 1e-12, detail=f"max dev {worst_mul:.2e}"))
-    out.append(dict(name="scipy as_euler reproduces the matrix (EulerOK), incl. gimbal lock", ok=worst_rt < 1e-9, detail=f"max dev {worst_rt:.2e}"))
+    out.append(dict(name="scipy as_euler reproduces the matrix (EulerOK), incl. gimbal lock", ok=worst_rt < 1e-9, detail=f"max dev beyond the near-gimbal allowance {worst_rt:.2e}"))
+    out.append(dict(name="scipy as_euler next to gimbal lock: deviation within 3 sin(theta) inside the 1e-7 rad zone, 1e-9 outside", ok=zone < 1e-9, detail=f"max dev beyond the allowance {zone:.2e} on {20 * len(NEAR_GIMBAL)} near-gimbal orientations"))
     xs = [n + 0.5 for n in range(-6, 7)] + [rng.uniform(-50, 50) for _ in range(50)] + [0.49999999999999994, -0.49999999999999994, 2.5000000000000004]
     r = core.run_driver([dict(prop=PROP, op="round", xs=[f2b(x) for x in xs])])[0]
     py = [int(decimal.Decimal(x).to_integral_value(rounding=decimal.ROUND_HALF_UP)) for x in xs]
@@ -1589,8 +2185,11 @@ LEVEL_TEXT = ("Lean 4 theorems about an executable, number-type-polymorphic mode
               "dimensions do not cover the particle's tomogram is outside the quantifier), with update_spec (position kept, integers, |shift|<=1/2 "
               "for ROUND_HALF_UP incl. ties), shift_shift, rotate_rotate, flip_flip, update_idem and verified exact checkers; over the reals every proper rotation "
               "has zxz Euler angles (exists_zxz_of_rot, realSvc_eulerOK) so the history theorem holds without any assumption on the numeric services "
-              "(absPose_runOps_real); tied to the source by regenerated anchors (x+shift columns, rounding mode, scale loop, Euler sequence/units, R*Q order, "
-              "flip offset and both flip branches, signatures and defaults, alpha-normalised whole bodies) and by a per-operation differential run of the real "
+              "(absPose_runOps_real); histories with flips: two successive flips cancel anywhere (flip_flip_in_history), and in a scale-free history all "
+              "flips move to the end, leaving the mirrored flip-free history followed by one flip iff their number is odd (spec_history_flip_parity, "
+              "history_flip_parity, history_flip_parity_real); the 1x3 / Nx4 shape dispatch of dimensions_load is modelled and executed (loadDims_*); tied to the source by regenerated anchors (x+shift columns, rounding mode, scale loop, Euler sequence/units, R*Q order, "
+              "flip offset and both flip branches, the float conversions that make integer-typed columns work, signatures and defaults, canonical whole bodies "
+              "incl. dimensions_load and imod_com_read) and by a per-operation differential run of the real "
               "code against the model and against the statement (all 20 fields, dtypes, caller-owned arguments, two lists per process)")
 LEVEL_NOTE = ("for Float/Rat services the scipy facts are hypotheses of the theorems: cos even/sin odd (CsOdd) and, for apply_rotation only, that as_euler's triple "
               "reproduces the product matrix (EulerOK, per matrix); both are probed numerically each run and are theorems for the real-number services; float "
